@@ -282,9 +282,16 @@ func NewMessageDef(name, msgType string, parts []MessagePart) *MessageDef {
 		switch pType := part.(type) {
 		case messagePartWithFields:
 			for _, f := range pType.Fields() {
-				// Field if required in component is required in message only if
-				// component is required.
-				processField(f, pType.Required())
+				processField(f, false)
+			}
+
+			// A field of a component is required in the message only if the component is
+			// required and the field is required through required parts all the way down
+			// (a required field of an optional sub-component is not).
+			if pType.Required() {
+				for _, f := range pType.RequiredFields() {
+					msg.RequiredTags.Add(f.Tag())
+				}
 			}
 
 		case *FieldDef:
